@@ -27,6 +27,9 @@ def declare(reg):
     )
     reg.properties.setdefault("C19", {}).setdefault("bounded", []).append(
         {"name": "read-loop-vs-reference-tokenizer", "module": "harness.frontend", "func": "ReadLoop"})
+    # C08 (c) "literals are taken by octet count, nothing is left unparsed": the command text the parser sees is assembled by this read loop
+    reg.properties.setdefault("C08", {}).setdefault("bounded", []).append(
+        {"name": "read-loop-vs-reference-tokenizer", "module": "harness.frontend", "func": "ReadLoop"})
     reg.properties.setdefault("C19", {}).setdefault("bounded", []).append(
         {"name": "response-relay-unmodified", "module": "harness.frontend", "func": "Relay"})
 
